@@ -338,12 +338,24 @@ let () =
                    | Trap t -> "TRAP " ^ trap_name t) in
                ignore s; Some m)
           | 7 ->
+            (* the fat-pointer model: the whole storage viewed as the span {0, n}; results printed from the window *)
+            let whole = { sp_off = nat_of_int 0; sp_size = nat_of_int (List.length !spans) } in
             (match op with
-             | 1 -> (match span_at (nat_of_i64 a) !spans with
+             | 1 -> (match spw_at (nat_of_i64 a) !spans whole with
                  | Ok x -> Some (Printf.sprintf "%s %d :" (dec_of_z x) (List.length !spans))
                  | Trap t -> Some ("TRAP " ^ trap_name t))
-             | 2 -> (match span_sub (nat_of_i64 a) (nat_of_i64 b) !spans with
-                 | Ok l -> Some (Printf.sprintf "- %d :%s" (List.length l) (toks l))
+             | 2 -> (match spw_sub (nat_of_i64 a) (nat_of_i64 b) whole with
+                 | Ok w -> let l = sp_view !spans w in Some (Printf.sprintf "- %d :%s" (List.length l) (toks l))
+                 | Trap t -> Some ("TRAP " ^ trap_name t))
+             | 3 -> (match spw_sub (nat_of_i64 a) (nat_of_i64 b) whole with        (* s:sub(a,b)[c] *)
+                 | Ok w -> (match spw_at (nat_of_i64 c) !spans w with
+                     | Ok x -> Some (Printf.sprintf "%s %d :" (dec_of_z x) (List.length !spans))
+                     | Trap t -> Some ("TRAP " ^ trap_name t))
+                 | Trap t -> Some ("TRAP " ^ trap_name t))
+             | 4 -> (match spw_sub (nat_of_i64 a) (nat_of_i64 b) whole with        (* s:sub(a,b):sub(c,c') with c' = size of the first sub *)
+                 | Ok w -> (match spw_sub (nat_of_i64 c) w.sp_size w with
+                     | Ok w2 -> let l = sp_view !spans w2 in Some (Printf.sprintf "- %d :%s" (List.length l) (toks l))
+                     | Trap t -> Some ("TRAP " ^ trap_name t))
                  | Trap t -> Some ("TRAP " ^ trap_name t))
              | _ -> Some "?")
           | 8 ->
